@@ -26,7 +26,7 @@ ASSUMPTIONS = [
     "write side: no finite sample prints as a token numerically equal to NULL",
 ]
 REQUIRED = ["read_cases", "cells_compared", "null_equal_cells_in_index", "near_null_cells", "null_equal_cells_other_spelling",
-            "policy_none_cases", "text_column_cases", "write_nan_tokens_checked", "roundtrip_masks_compared", "wrapped_cases", "read_cases_with_surplus_columns"]
+            "policy_none_cases", "text_column_cases", "write_nan_tokens_checked", "roundtrip_masks_compared", "wrapped_cases", "read_cases_with_surplus_columns", "second_writes_after_in_place_edits"]
 SOFT_DEADLINE = {"quick": 90, "thorough": 1200}
 LEVEL_TEXT = "Exploration with a cell-level 'if and only if' model of the NaN mask on both directions (read, write->read)."
 LEVEL_NOTE = "Trusts Python float() as the numeric-equality reference for spellings; NULL texts outside the listed set are not covered."
@@ -207,6 +207,49 @@ def run_read(case, ctx):
                     "nan mask": [[bool(np.asarray(cu.data).dtype.kind == "f" and math.isnan(float(cu.data[i]))) for cu in las.curves] for i in range(min(r, 4))]}, limit=4)
 
 
+def written_ok(ctx, case, las, data, nv, kw, tag):
+    lasio = ctx.lasio
+    r, c = case["rows"], case["cols"]
+    buf = io.StringIO()
+    try:
+        las.write(buf, **kw)
+    except Exception as e:
+        ctx.violation("write-raised", "%s raised %r" % (tag, e), case)
+        return False
+    text = buf.getvalue()
+    lines = text.splitlines()
+    a0 = max(i for i, ln in enumerate(lines) if ln.startswith("~A"))
+    toks = [t for ln in lines[a0 + 1:] for t in ln.split()]
+    detail = {"text": text, "case": case, "phase": tag}
+    sfx = "" if tag == "first-write" else ":" + tag
+    if len(toks) == r * c:
+        for i in range(r):
+            for j in range(c):
+                if math.isnan(data[j][i]):
+                    ctx.count("write_nan_tokens_checked")
+                    if toks[i * c + j] != str(nv):
+                        ctx.violation("nan-not-written-as-null" + sfx, "NaN at (%d,%d) written as %r, NULL is %r" % (i, j, toks[i * c + j], str(nv)), detail)
+    else:
+        ctx.violation("emitted-token-count" + sfx, "%d tokens for %d x %d" % (len(toks), r, c), detail)
+    try:
+        back = lasio.read(text, engine=case["engine"])
+    except Exception as e:
+        ctx.violation("reread-raised" + sfx, "re-read raised %r" % (e,), detail)
+        return False
+    if len(back.curves) != c or any(len(cu.data) != r for cu in back.curves):
+        ctx.violation("shape-changed" + sfx, "re-read gave %d curves" % len(back.curves), detail)
+        return False
+    ctx.count("roundtrip_masks_compared")
+    if case["wrap"]:
+        ctx.count("wrapped_cases")
+    for j in range(c):
+        got = np.isnan(np.asarray(back.curves[j].data, dtype=float))
+        want = np.isnan(np.array(data[j]))
+        if not np.array_equal(got, want):
+            ctx.violation("nan-mask-changed-by-roundtrip" + sfx, "curve %d NaN mask %s -> %s" % (j, want.tolist(), got.tolist()), detail)
+    return True
+
+
 def run_write(case, ctx):
     import random
     lasio = ctx.lasio
@@ -230,43 +273,34 @@ def run_write(case, ctx):
         data.append(col)
     for j in range(c):
         las.append_curve("DEPT" if j == 0 else "C%d" % j, np.array(data[j]), unit="m")
-    buf = io.StringIO()
     kw = {"wrap": case["wrap"], "fmt": fmt}
     if case.get("version"):
         kw["version"] = case["version"]
-    try:
-        las.write(buf, **kw)
-    except Exception as e:
-        ctx.violation("write-raised", "write raised %r" % (e,), case)
+    if not written_ok(ctx, case, las, data, nv, kw, "first-write"):
         return
-    text = buf.getvalue()
-    lines = text.splitlines()
-    a0 = max(i for i, ln in enumerate(lines) if ln.startswith("~A"))
-    toks = [t for ln in lines[a0 + 1:] for t in ln.split()]
-    detail = {"text": text, "case": case}
-    if len(toks) == r * c:
-        for i in range(r):
-            for j in range(c):
-                if math.isnan(data[j][i]):
-                    ctx.count("write_nan_tokens_checked")
-                    if toks[i * c + j] != str(nv):
-                        ctx.violation("nan-not-written-as-null", "NaN at (%d,%d) written as %r, NULL is %r" % (i, j, toks[i * c + j], str(nv)), detail)
-    else:
-        ctx.violation("emitted-token-count", "%d tokens for %d x %d" % (len(toks), r, c), detail)
-    try:
-        back = lasio.read(text, engine=case["engine"])
-    except Exception as e:
-        ctx.violation("reread-raised", "re-read raised %r" % (e,), detail)
-        return
-    if len(back.curves) != c or any(len(cu.data) != r for cu in back.curves):
-        ctx.violation("shape-changed", "re-read gave %d curves" % len(back.curves), detail)
-        return
-    ctx.count("roundtrip_masks_compared")
-    if case["wrap"]:
-        ctx.count("wrapped_cases")
-    for j in range(c):
-        got = np.isnan(np.asarray(back.curves[j].data, dtype=float))
-        want = np.isnan(np.array(data[j]))
-        if not np.array_equal(got, want):
-            ctx.violation("nan-mask-changed-by-roundtrip", "curve %d NaN mask %s -> %s" % (j, want.tolist(), got.tolist()), detail)
+    if case["seed"] % 2 == 0:
+        # the same object later in its life: gaps filled and new gaps made *in place*, the NULL value changed, then written again
+        # ("every NaN is emitted as the *current* NULL value")
+        las.df() if case["seed"] % 4 == 0 else las.data
+        for j in range(1, c):
+            arr = las.curves[j].data
+            for i in range(r):
+                if (i + j + case["seed"]) % 3 == 0:
+                    if math.isnan(data[j][i]):
+                        data[j][i] = 7.5 + i
+                    else:
+                        data[j][i] = float("nan")
+                    arr[i] = data[j][i]
+        nv2 = nv
+        if case["seed"] % 3 == 0:
+            nv2 = {-999.25: -9999.25, 0: -999.25}.get(nv, -999.25)
+            las.well["NULL"].value = nv2
+            for j in range(1, c):                      # no finite sample may print as the new NULL
+                for i in range(r):
+                    if not math.isnan(data[j][i]) and float(fmt % data[j][i]) == float(nv2):
+                        data[j][i] += 1.5
+                        las.curves[j].data[i] = data[j][i]
+        ctx.count("second_writes_after_in_place_edits")
+        if not written_ok(ctx, case, las, data, nv2, kw, "second-write"):
+            return
     ctx.case_done(["write", nv, case["wrap"], case["engine"], fmt, case.get("version")], nontrivial=True)
